@@ -68,6 +68,8 @@ func (p *process) Invoke(msgs []Envelope) {
 		// bottom of the function it freezes some tests. Hence, I created a new counter
 		// for bookkeeping.
 		processed = 0
+		// the graceful poison pill we are draining the batch for, if any.
+		draining *Envelope
 	)
 	defer func() {
 		// If we recovered, we buffer up all the messages that we could not process
@@ -76,6 +78,11 @@ func (p *process) Invoke(msgs []Envelope) {
 			p.mbuffer = make([]Envelope, nmsg-nproc)
 			for i := 0; i < nmsg-nproc; i++ {
 				p.mbuffer[i] = msgs[i+nproc]
+			}
+			// A panic while draining behind a graceful poison pill must not
+			// lose the pill: it is honoured once the remaining messages are done.
+			if draining != nil {
+				p.mbuffer = append(p.mbuffer, *draining)
 			}
 			p.tryRestart(v)
 		}
@@ -88,10 +95,13 @@ func (p *process) Invoke(msgs []Envelope) {
 			// If we need to gracefuly stop, we process all the messages
 			// from the inbox, otherwise we ignore and cleanup.
 			if pill.graceful {
-				msgsToProcess := msgs[processed:]
+				draining = &msgs[i]
+				msgsToProcess := msgs[processed+1:]
 				for _, m := range msgsToProcess {
+					nproc++
 					p.invokeMsg(m)
 				}
+				draining = nil
 			}
 			p.cleanup(pill.cancel)
 			return
